@@ -9,12 +9,23 @@ import (
 	"strings"
 )
 
+// contextInitUnit: templ.InitializeContext and the functions of the package it calls (two levels): the allocation of
+// the per-render state may sit in a helper it shares with the lookup (getContext).
+func contextInitUnit(c *Ctx) []*ast.FuncDecl {
+	p := c.pkg(".")
+	fd := findFunc(p, "", "InitializeContext")
+	if fd == nil || fd.Body == nil {
+		return nil
+	}
+	return phaseUnit(p, fd)
+}
+
 // renderStateType finds the struct type that templ.InitializeContext allocates (the per-render state).
 func renderStateType(c *Ctx) *types.Named {
 	p := c.pkg(".")
 	info := p.TypesInfo
 	var out *types.Named
-	if fd := findFunc(p, "", "InitializeContext"); fd != nil {
+	for _, fd := range contextInitUnit(c) {
 		ast.Inspect(fd.Body, func(n ast.Node) bool {
 			if cl, ok := n.(*ast.CompositeLit); ok {
 				if nt, ok := info.TypeOf(cl).(*types.Named); ok && nt.Obj().Pkg() == p.Types {
@@ -199,6 +210,68 @@ func renderStateMapsFresh(c *Ctx, rule string) {
 			return true
 		})
 	}
+	// a field whose type is a set type of the package (a named map with methods): the map is (re)made inside those
+	// methods, by assigning through the receiver
+	if stt, ok := st.Underlying().(*types.Struct); ok {
+		setTypes := map[*types.TypeName]bool{}
+		for i := 0; i < stt.NumFields(); i++ {
+			if nt, ok := stt.Field(i).Type().(*types.Named); ok && nt.Obj().Pkg() == p.Types {
+				if _, isMap := nt.Underlying().(*types.Map); isMap {
+					setTypes[nt.Origin().Obj()] = true
+				}
+			}
+		}
+		for _, fd := range allFuncDecls(p) {
+			if fd.Recv == nil || fd.Body == nil || len(fd.Recv.List) != 1 || len(fd.Recv.List[0].Names) != 1 {
+				continue
+			}
+			robj := info.Defs[fd.Recv.List[0].Names[0]]
+			if robj == nil {
+				continue
+			}
+			rt := robj.Type()
+			if pt, ok := rt.(*types.Pointer); ok {
+				rt = pt.Elem()
+			}
+			nt, ok := rt.(*types.Named)
+			if !ok || !setTypes[nt.Origin().Obj()] {
+				continue
+			}
+			ord := 0
+			ast.Inspect(fd.Body, func(x ast.Node) bool {
+				as, ok := x.(*ast.AssignStmt)
+				if !ok || len(as.Lhs) != len(as.Rhs) {
+					return true
+				}
+				for i, l := range as.Lhs {
+					se, ok := ast.Unparen(l).(*ast.StarExpr)
+					if !ok {
+						continue
+					}
+					if id, ok := ast.Unparen(se.X).(*ast.Ident); !ok || info.ObjectOf(id) != robj {
+						continue
+					}
+					ord++
+					n++
+					rhs := ast.Unparen(as.Rhs[i])
+					fresh := false
+					switch rr := rhs.(type) {
+					case *ast.CompositeLit:
+						fresh = true
+					case *ast.CallExpr:
+						if id, ok := rr.Fun.(*ast.Ident); ok && id.Name == "make" {
+							fresh = true
+						}
+					case *ast.Ident:
+						fresh = rr.Name == "nil"
+					}
+					c.check(fresh, rule, fmt.Sprintf("%s|*%s=#%d|fresh-map", funcKey(p, fd), nt.Obj().Name(), ord), c.pos(as.Pos()), "the set is (re)made with a fresh map",
+						fmt.Sprintf("%s assigns %s to a set of the render state: the map is then shared by every render that takes this path", fd.Name.Name, types.ExprString(rhs)))
+				}
+				return true
+			})
+		}
+	}
 	c.count("render_state_map_assignments", n)
 	c.floor(rule, 2)
 }
@@ -231,26 +304,19 @@ func onceRegistryKey(c *Ctx, rule string) {
 		if hParam == nil {
 			continue
 		}
-		ast.Inspect(fd.Body, func(x ast.Node) bool {
-			ix, ok := x.(*ast.IndexExpr)
-			if !ok {
-				return true
-			}
-			// a map that belongs to the render state: a field of it, the result of one of its methods (lazy accessor), or
-			// of a helper that is handed the field's address
-			se := stateMapOf(p, ix.X)
-			if se == nil {
-				return true
-			}
+		for _, acc := range stateAccessesIn(p, fd.Body) {
+			// a map that belongs to the render state: a field of it, the result of one of its methods (lazy accessor), of
+			// a helper that is handed the field's address, or a set type consulted through its methods
+			se, ix := acc.Field, acc.Node
 			recv := info.Selections[se].Recv()
 			if pt, ok := recv.(*types.Pointer); ok {
 				recv = pt.Elem()
 			}
 			if !types.Identical(recv, st) {
-				return true
+				continue
 			}
 			n++
-			key := ast.Unparen(ix.Index)
+			key := ast.Unparen(acc.Key)
 			why := ""
 			switch k := key.(type) {
 			case *ast.Ident:
@@ -288,8 +354,7 @@ func onceRegistryKey(c *Ctx, rule string) {
 			}
 			c.check(why == "", rule, fmt.Sprintf("%s|%s[…]|keyed-by-handle-identity", funcKey(p, fd), se.Sel.Name), c.pos(ix.Pos()), "the registry is keyed by the handle pointer",
 				fd.Name.Name+": the once-handle registry is "+why)
-			return true
-		})
+		}
 	}
 	c.count("once_registry_accesses", n)
 	c.floor(rule, 2)
@@ -308,18 +373,22 @@ func renderStateSingle(c *Ctx, rule string) {
 		return
 	}
 	// the context key: the constant used in InitializeContext's context.WithValue
+	// (the store may sit in a helper InitializeContext shares with the lookup: that helper is then "the initialiser")
 	var keyObj types.Object
 	init := findFunc(p, "", "InitializeContext")
-	ast.Inspect(init.Body, func(x ast.Node) bool {
-		if call, ok := x.(*ast.CallExpr); ok {
-			if fn := calleeOf(info, call); fn != nil && fullName(fn) == "context.WithValue" && len(call.Args) == 3 {
-				if id, ok := ast.Unparen(call.Args[1]).(*ast.Ident); ok {
-					keyObj = info.ObjectOf(id)
+	for _, ufd := range contextInitUnit(c) {
+		ast.Inspect(ufd.Body, func(x ast.Node) bool {
+			if call, ok := x.(*ast.CallExpr); ok && keyObj == nil {
+				if fn := calleeOf(info, call); fn != nil && fullName(fn) == "context.WithValue" && len(call.Args) == 3 {
+					if id, ok := ast.Unparen(call.Args[1]).(*ast.Ident); ok {
+						keyObj = info.ObjectOf(id)
+						init = ufd
+					}
 				}
 			}
-		}
-		return true
-	})
+			return true
+		})
+	}
 	if keyObj == nil {
 		c.viol(rule, "anchor-lost:context-key", "", "InitializeContext does not store the state with context.WithValue(ctx, <key>, …)")
 		return
@@ -437,4 +506,137 @@ func stateMapOf(p *packages.Package, x ast.Expr) *ast.SelectorExpr {
 		}
 	}
 	return nil
+}
+
+// A set type: a named map type of the package with methods that index the receiver by one of their parameters —
+// add(k) stores, has(k) asks (a lazily allocated set). A call field.add(k) on a field of that type is the same access
+// as field[k] = … on a plain map field.
+type setMethod struct {
+	decl     *ast.FuncDecl
+	keyParam int
+	writes   bool
+	reads    bool
+}
+
+func setTypeMethods(p *packages.Package) map[*types.Func]setMethod {
+	info := p.TypesInfo
+	out := map[*types.Func]setMethod{}
+	for _, fd := range allFuncDecls(p) {
+		if fd.Recv == nil || fd.Body == nil || len(fd.Recv.List) != 1 || len(fd.Recv.List[0].Names) != 1 {
+			continue
+		}
+		robj := info.Defs[fd.Recv.List[0].Names[0]]
+		if robj == nil {
+			continue
+		}
+		rt := robj.Type()
+		if pt, ok := rt.(*types.Pointer); ok {
+			rt = pt.Elem()
+		}
+		nt, ok := rt.(*types.Named)
+		if !ok || nt.Obj().Pkg() != p.Types {
+			continue
+		}
+		if _, isMap := nt.Underlying().(*types.Map); !isMap {
+			continue
+		}
+		prms := paramObjs(info, fd)
+		sm := setMethod{decl: fd, keyParam: -1}
+		lhs := map[ast.Expr]bool{}
+		ast.Inspect(fd.Body, func(n ast.Node) bool {
+			if as, ok := n.(*ast.AssignStmt); ok {
+				for _, l := range as.Lhs {
+					lhs[ast.Unparen(l)] = true
+				}
+			}
+			return true
+		})
+		ast.Inspect(fd.Body, func(n ast.Node) bool {
+			ix, ok := n.(*ast.IndexExpr)
+			if !ok {
+				return true
+			}
+			base := ast.Unparen(ix.X)
+			if st, ok := base.(*ast.StarExpr); ok {
+				base = ast.Unparen(st.X)
+			}
+			bid, ok := base.(*ast.Ident)
+			if !ok || info.ObjectOf(bid) != robj {
+				return true
+			}
+			kid, ok := ast.Unparen(ix.Index).(*ast.Ident)
+			if !ok {
+				return true
+			}
+			for j, pr := range prms {
+				if pr != nil && info.ObjectOf(kid) == pr {
+					sm.keyParam = j
+					if lhs[ix] {
+						sm.writes = true
+					} else {
+						sm.reads = true
+					}
+				}
+			}
+			return true
+		})
+		if fn, ok := info.Defs[fd.Name].(*types.Func); ok && sm.keyParam >= 0 {
+			out[fn] = sm
+		}
+	}
+	return out
+}
+
+// stateAccess: one consultation of a map (or set) field of some struct: field[key], or field.m(key) through a set type.
+type stateAccess struct {
+	Field *ast.SelectorExpr
+	Key   ast.Expr
+	Write bool
+	Node  ast.Node
+}
+
+func stateAccessesIn(p *packages.Package, root ast.Node) []stateAccess {
+	info := p.TypesInfo
+	sets := setTypeMethods(p)
+	var out []stateAccess
+	lhs := map[ast.Expr]bool{}
+	ast.Inspect(root, func(n ast.Node) bool {
+		if as, ok := n.(*ast.AssignStmt); ok {
+			for _, l := range as.Lhs {
+				lhs[ast.Unparen(l)] = true
+			}
+		}
+		return true
+	})
+	ast.Inspect(root, func(n ast.Node) bool {
+		switch x := n.(type) {
+		case *ast.IndexExpr:
+			if mf := stateMapOf(p, x.X); mf != nil {
+				out = append(out, stateAccess{mf, x.Index, lhs[x], x})
+			}
+		case *ast.CallExpr:
+			se, ok := ast.Unparen(x.Fun).(*ast.SelectorExpr)
+			if !ok {
+				return true
+			}
+			fn := calleeOf(info, x)
+			if fn == nil {
+				return true
+			}
+			sm, ok := sets[fn.Origin()]
+			if !ok || sm.keyParam >= len(x.Args) {
+				return true
+			}
+			fsel, ok := ast.Unparen(se.X).(*ast.SelectorExpr)
+			if !ok {
+				return true
+			}
+			if sel, ok := info.Selections[fsel]; !ok || sel.Kind() != types.FieldVal {
+				return true
+			}
+			out = append(out, stateAccess{fsel, x.Args[sm.keyParam], sm.writes, x})
+		}
+		return true
+	})
+	return out
 }
